@@ -763,6 +763,12 @@ def normalise(t):
         _FOLD_CTR[0] += 1
         m, i_ = "m%d" % _FOLD_CTR[0], "b%d" % _FOLD_CTR[0]
         return normalise(("seq", ("let", m, ("lit", "1", ty)), ("for", ("bind", i_), t[2], ("setop", "mul", ty, ("var", m), ("var", i_))), ("var", m)))
+    if h == "call" and t[1] == "Iterator::product::<f64>" and len(t) == 3 and _is(t[2], "call") and len(t[2]) == 4 and isinstance(t[2][1], str) and t[2][1].endswith("as iter::Iterator>::map") \
+            and (_is(t[2][2], "range") or _is(t[2][2], "rangei")) and _is(t[2][3], "lambda") and len(t[2][3][1]) == 1 and _is(t[2][3][1][0], "bind"):
+        # (a..=b).map(|i| f(i)).product::<f64>()  ==  let mut m = 1.0; for i in a..=b { m *= f(i) }; m      (std: fold(1.0, |acc, x| acc * x))
+        _FOLD_CTR[0] += 1
+        m = "m%d" % _FOLD_CTR[0]
+        return normalise(("seq", ("let", m, ("lit", "1.0", "f64")), ("for", t[2][3][1][0], t[2][2], ("setop", "mul", "f64", ("var", m), t[2][3][2])), ("var", m)))
     if h == "call" and isinstance(t[1], str) and len(t) == 4 and re.match(r"^<Option<&?char> as cmp::PartialEq>::eq$", t[1]):
         # opt == Some('c')  ==  matches!(opt, Some('c'))      (either side)
         for a, b in ((t[2], t[3]), (t[3], t[2])):
